@@ -454,6 +454,13 @@ def method_call(engine, st, base, bv, meth, node):
         if meth == "isdisjoint":
             B = domain_of(engine, engine.deref(st, args[0]))
             return Ty.mk_bool(z3.SetIntersect(bv.c[0], B) == z3.EmptySet(Ty.IntS))
+        if meth in ("symmetric_difference", "intersection", "difference", "issubset") and len(args) == 1:
+            A, B = bv.c[0], domain_of(engine, engine.deref(st, args[0]))
+            if meth == "issubset":
+                return Ty.mk_bool(z3.IsSubset(A, B))
+            k = z3.Int("sm!k")
+            body = {"symmetric_difference": z3.Xor(A[k], B[k]), "intersection": z3.And(A[k], B[k]), "difference": z3.And(A[k], z3.Not(B[k]))}[meth]
+            return engine.alloc(st, V(t, [z3.Lambda([k], body)]))
     raise Unsupported(f"method {meth} on {t if t is not None else bv}")
 
 
